@@ -253,9 +253,9 @@ func genShape(p *pkgInfo, out string) {
 	flag("termEndAwaitsPromoteStart", "becomeFollower, Stop and StopWithContext wait for that signal when they end a term", awaitOK && enders == 3)
 	// StopWithContext: one deadline for all its waits, key deletion not a blocking call of the caller
 	swc := squash(p.src(p.fn("kvElection.StopWithContext").Body))
-	flag("stopWaitsShareDeadline", "StopWithContext computes one deadline and every wait of it uses time.Until(deadline)",
+	flag("stopWaitsShareDeadline", "StopWithContext computes one deadline (assigned once) and every wait of it uses time.Until(deadline)",
 		strings.Contains(swc, "deadline := time.Now().Add(timeout)") && strings.Count(swc, "time.After(time.Until(deadline))") >= 3 &&
-			!strings.Contains(swc, "time.After(timeout)"))
+			!strings.Contains(swc, "time.After(timeout)") && !strings.Contains(swc, "deadline = "))
 	flag("stopDeleteAsync", "StopWithContext issues the key deletion from a goroutine and waits for it under the deadline",
 		strings.Contains(swc, "go func() { deleted <- e.kv.Delete(e.key) }()") && strings.Count(swc, "e.kv.Delete(") == 1)
 	st := squash(p.src(p.fn("kvElection.Stop").Body))
